@@ -197,7 +197,7 @@ func c04Coq(cs *c04Case) string {
 		strings.Join(files, "; "), keys, cs.Skip, cs.UpOk, strings.Join(es, "; "), strings.Join(sizes, ";"), cs.Count, strings.Join(dls, "; "))
 }
 
-var c04Dirs = []string{"", "a/", "a/b/", "a/b/c/d/e/f/", "dir with space/", "d.o.t/", ".hidden/", "uni/é日本/", "x/.datamonish/", "data/.datamon/", "sub/.conflicts/"}
+var c04Dirs = []string{"", "a/", "a/b/", "a/b/c/d/e/f/", "dir with space/", "d.o.t/", ".hidden/", "uni/é日本/", "deco/cafe\u0301/", "deco/caf\u00e9/", "x/.datamonish/", "data/.datamon/", "sub/.conflicts/"}
 var c04Decoys = []string{".datamon/x.yaml", ".datamon/deep/er/file", ".conflicts/split1/p.txt", ".checkpoints/s/q", ".datamon", ".conflicts", ".checkpoints/"}
 
 func c04Tree(r *gen.Rand, n int, L int) []world.File {
@@ -271,7 +271,7 @@ func init() {
 		c.CaseTy = "bcase"
 		c.Report = "report"
 		c.PerFile = 6
-		c.Rule = "trees of 0..2500 files (crossing the 1000 and 2000 entries-per-index-file boundaries), nested directories, names with spaces / unicode / dots, sizes 0..3 leaves incl. exact multiples, duplicated content, generated-path decoys at several depths; explicit key lists with repeated and missing keys, with and without skip-missing; leaf sizes 64 B..5 MiB (large leaves with tiny files); upload/download concurrency 1..20; downloads filtered by predicates of a small combinator language and single-file downloads; file bytes compared through their independently computed (hashlib) keys; non-trivial = successful upload of at least two entries, distinct by entry list"
+		c.Rule = "trees of 0..2500 files (crossing the 1000 and 2000 entries-per-index-file boundaries), nested directories, names with spaces / unicode (composed and decomposed forms of the same text side by side) / dots, sizes 0..3 leaves incl. exact multiples, duplicated content, generated-path decoys at several depths; explicit key lists with repeated and missing keys, with and without skip-missing; leaf sizes 64 B..5 MiB (large leaves with tiny files); upload/download concurrency 1..20; downloads filtered by predicates of a small combinator language and single-file downloads; file bytes compared through their independently computed (hashlib) keys; non-trivial = successful upload of at least two entries, distinct by entry list"
 		py := newPyRef()
 		defer py.in.Close()
 		emit := func(cs *c04Case) {
